@@ -460,7 +460,7 @@ pub fn prop_multi(c: &crate::props::c15::MultiCase, log: &mut CaseLog) -> Verdic
 }
 
 pub fn run_check(ctx: &mut Ctx) {
-    ctx.rule = "error-free generator programs (shadowed names in nested scopes, dotted and `super` paths, macros with parameters, loops, untaken branches, string interpolation) that assemble and agree byte-for-byte with the reference layout model (so the model's binding is the one the build used); for every path component of every identifier use: textDocument/definition must return exactly the range of the definition the documented scoping rule binds it to; for every label/constant/variable definition: textDocument/references (with and without declaration) and documentHighlight must return exactly the set of occurrences bound to it. non-trivial = program with >= 3 identifier uses. second campaign: two-file projects (main imports lib with `*`, `* as ns` or a specific list): from every occurrence of a library symbol, in both files, definition must lead to the library and references must list exactly all whole-word occurrences in both files".into();
+    ctx.rule = "error-free generator programs (shadowed names in nested scopes, dotted and `super` paths, macros with parameters, loops, untaken branches, string interpolation, tests whose bodies, assertions and traces refer to the program's symbols; one case in three rendered with comments between the tokens, a third of those with characters of two UTF-16 code units; positions are sent and expected in UTF-16 code units) that assemble and agree byte-for-byte with the reference layout model (so the model's binding is the one the build used); for every path component of every identifier use: textDocument/definition must return exactly the range of the definition the documented scoping rule binds it to; for every label/constant/variable definition: textDocument/references (with and without declaration) and documentHighlight must return exactly the set of occurrences bound to it. non-trivial = program with >= 3 identifier uses. second campaign: two-file projects (main imports lib with `*`, `* as ns` or a specific list): from every occurrence of a library symbol, in both files, definition must lead to the library and references must list exactly all whole-word occurrences in both files".into();
     if !have_mos() {
         ctx.health(false, "mos binary not built (MOS_BIN)");
         return;
